@@ -45,8 +45,10 @@ def list_spec(case, version, use_dict, kind):
         if not trs:
             continue
         values = [t["val"] for t in trs if t["val"] >= 0]
-        pages.append({"version": version, "encoding": "DICT" if use_dict else "PLAIN",
-                      "values": [vals_all.index(v) for v in values] if use_dict else [phys(v) for v in values],
+        # use_dict == "mixed": dictionary fallback inside the chunk - the first page dictionary-encoded, the others plain
+        as_dict = bool(use_dict) and not (use_dict == "mixed" and pages)
+        pages.append({"version": version, "encoding": "DICT" if as_dict else "PLAIN",
+                      "values": [vals_all.index(v) for v in values] if as_dict else [phys(v) for v in values],
                       "def_levels": [t["def"] for t in trs], "rep_levels": [t["rep"] for t in trs]})
     schema = [{"name": "l", "repetition": "OPTIONAL" if lopt else "REQUIRED", "converted_type": "LIST",
                "children": [{"name": "list", "repetition": "REPEATED",
@@ -72,8 +74,10 @@ def job(args):
             if version == 2 and inside:
                 out["skipped_v2"] += 1       # version-2 pages must start on a row boundary: such a layout is not valid
                 continue
-            for use_dict, kind in ((False, "int64"), (True, "int64"), (False, "utf8")):
+            for use_dict, kind in ((False, "int64"), (True, "int64"), (False, "utf8"), ("mixed", "int64")):
                 if only is not None and (version, use_dict, kind) != tuple(only):
+                    continue
+                if use_dict == "mixed" and not case["cuts"]:
                     continue
                 try:
                     data = PW.build_file(list_spec(case, version, use_dict, kind))
@@ -247,7 +251,7 @@ def _run(ev, work, thorough):
         if isinstance(r, Crashed):
             # a crash takes the whole batch with it: re-run its cases one variant per process
             singles = [(k, [c], (v, d, kd)) for k, c in enumerate(j[1]) for v in (1, 2)
-                       for d, kd in ((False, "int64"), (True, "int64"), (False, "utf8"))]
+                       for d, kd in ((False, "int64"), (True, "int64"), (False, "utf8"), ("mixed", "int64"))]
             sres = pmap(job, singles, job_timeout=300)
             # a single that only timed out (machine under load) gets one more try on its own
             again = [i for i, sr in enumerate(sres) if isinstance(sr, Crashed) and sr.timed_out]
